@@ -178,7 +178,7 @@ class C15:
                    "num_starts": rc.randint(2, max(2, min(n, 4))), "seed": rc.randrange(1 << 30)}
             rows = rows[: min(len(rows), 4)]
         search = None
-        if lit is None and name in SEARCH_ENVS and 5 <= n <= 7 and rc.random() < 0.5:
+        if lit is None and name in SEARCH_ENVS and 5 <= n <= 7 and rc.random() < 0.65:
             # part D instead of part B: test-time search (incumbent over iterations) under a virtual clock
             search = _plan_search(rc, len(rows))
         return {"cfg": cfg, "coords": mode, "instances": [E.enc_row(r) for r in rows], "aug": aug,
